@@ -107,6 +107,8 @@ fn run_blocks(run: &mut Run, b: &Blocks, label: &str, stop_after_error: bool) {
     sc.reset(b.window);
     run.case(format!("blk new {}", b.window), format!("ok | {}", observe(&sc)));
     let mut lines: Vec<String> = vec![format!("blk new {}", b.window)];
+    // a decode error was already returned in this run (the scratch is carried on regardless)
+    let mut errored = false;
     for (h, content) in &b.blocks {
         let v = h[0] as u32 | (h[1] as u32) << 8 | (h[2] as u32) << 16;
         let (t, size) = ((v >> 1) & 3, (v >> 3) as usize);
@@ -128,11 +130,27 @@ fn run_blocks(run: &mut Run, b: &Blocks, label: &str, stop_after_error: bool) {
             Ok(Ok(())) => "ok".to_string(),
             Ok(Err(e)) => e.clone(),
             Err(p) => {
-                let r = lines.join("\n");
-                run.fail("C03", &format!("panic_block:{}", p.rsplit(" @ ").next().unwrap_or("?")), format!("[{}] block decoding panicked: {}", label, p), r);
+                if errored {
+                    // Continuing a frame after a decode error is not a legal call sequence (C03: "after a decode error
+                    // the caller may drain, query and reset, but not continue that frame"): a failed FSE / Huffman
+                    // table build leaves `accuracy_log` / `max_num_bits` set over a stale or empty table, and a later
+                    // Repeat / Treeless block indexes it out of range.  The model reproduces the fault at the same
+                    // site (compared below as outcome `fault`); theorem `decompressBlock_no_fault_any_history_false`
+                    // has the two minimal witnesses.  Counted, not reported as a violation.
+                    run.stat("panic_after_earlier_error(illegal_continuation)", 1);
+                    if run.notes.len() < 3 {
+                        run.notes.push(format!("[{}] panic after an earlier decode error in the same frame (illegal continuation): {}", label, p));
+                    }
+                } else {
+                    let r = lines.join("\n");
+                    run.fail("C03", &format!("panic_block:{}", p.rsplit(" @ ").next().unwrap_or("?")), format!("[{}] block decoding panicked: {}", label, p), r);
+                }
                 "fault".to_string()
             }
         };
+        if outcome != "ok" {
+            errored = true;
+        }
         if outcome == "err blockHeader" {
             // an illegal block header (reserved type, size above 128 KiB): the frame level rejects it (engine `dec`/`hostile`)
             lines.pop();
@@ -248,6 +266,30 @@ pub fn run(opts: &Opts) -> Run {
         if shown < 4 {
             run.samples.push(format!("{}: {} blocks, window {}", label, b.blocks.len(), b.window));
             shown += 1;
+        }
+    }
+    // (c) directed boundary blocks for the guards the block-level no-fault theorems (C03) rest on:
+    // an RLE-mode table whose symbol is the alphabet maximum, one above it, and 255, per channel
+    // (`lookup_ll_code` / `lookup_ml_code` end in `unreachable!`, offset codes above 31 must be rejected),
+    // followed by a Repeat-mode block that reuses the remembered RLE symbol
+    for (chan, max) in [(0usize, 35u8), (1, 31), (2, 52)] {
+        for sym in [max, max.wrapping_add(1), 255u8] {
+            let mut syms = [0u8; 3];
+            syms[chan] = sym;
+            let mk = |modes: u8, with_syms: bool| {
+                // 0 raw literals, 1 sequence, modes byte, (LL, OF, ML symbols), 64 stream bits + end mark
+                let mut c = vec![0x00u8, 0x01, modes];
+                if with_syms {
+                    c.extend_from_slice(&syms);
+                }
+                c.extend_from_slice(&[0xFF; 8]);
+                c.push(0x01);
+                let v = (2u32 << 1) | ((c.len() as u32) << 3);
+                ([v as u8, (v >> 8) as u8, (v >> 16) as u8], c)
+            };
+            let b = Blocks { window: 1 << 20, blocks: vec![([0x08 | 0x02, 0, 0], vec![7u8]), mk(0x54, true), mk(0xFC, false)] };
+            run.stat("directed_rle_boundary", 1);
+            run_blocks(&mut run, &b, &format!("directed RLE boundary chan {} sym {}", chan, sym), false);
         }
     }
     run
